@@ -298,6 +298,9 @@ func runC10(col *Collector, tier string, seed int64) {
 		}
 	}
 	total := len(vs) + len(as) + len(us)
+	for _, taskLevel := range []bool{false, true} {
+		sharedVarCase(col, taskLevel)
+	}
 	parallel(total, 16, func(i int) {
 		switch {
 		case i < len(vs):
@@ -310,4 +313,36 @@ func runC10(col *Collector, tier string, seed int64) {
 		}
 	})
 	col.res.Exhaustive = true
+}
+
+// stage a defines V, stage b (same task, runs after a) does not, then the task is run directly: b and the
+// direct run resolve V at the task level (or fail if nothing defines it) — never to a's stage value
+func sharedVarCase(col *Collector, taskLevel bool) {
+	dir := newScratchDir("c10s")
+	defer os.RemoveAll(dir)
+	trace := filepath.Join(dir, "trace")
+	var b strings.Builder
+	b.WriteString("tasks:\n  t:\n")
+	if taskLevel {
+		b.WriteString("    variables:\n      V: from-task\n")
+	} else {
+		b.WriteString("    variables:\n      Other: x\n")
+	}
+	fmt.Fprintf(&b, "    command:\n      - 'echo \"$WHO:{{.V}}\" >> %s'\n", trace)
+	b.WriteString("pipelines:\n  p:\n    - name: a\n      task: t\n      env: {WHO: a}\n      variables: {V: from-stage-a}\n")
+	b.WriteString("    - name: b\n      task: t\n      depends_on: [a]\n      allow_failure: true\n      env: {WHO: b}\n")
+	os.WriteFile(filepath.Join(dir, "tasks.yaml"), []byte(b.String()), 0644)
+	runTaskctl(dir, []string{"WHO=direct"}, 20*time.Second, "--output", "raw", "p")
+	runTaskctl(dir, []string{"WHO=direct"}, 20*time.Second, "--output", "raw", "t")
+	got := strings.Join(readTrace(trace), ",")
+	want := "a:from-stage-a"
+	if taskLevel {
+		want += ",b:from-task,direct:from-task"
+	}
+	cs := Case{Tags: []string{"shared-task-vars"}, NonTrivial: true, Replay: fmt.Sprintf("stage a defines V, stage b (same task) and a direct run do not; task-level V=%v", taskLevel)}
+	cs.Impl = got
+	if got != want {
+		cs.Fail, cs.Sig = fmt.Sprintf("executions printed %q, expected %q (a stage's variables apply to that stage only)", got, want), "c10-stage-var-leak"
+	}
+	col.Add(cs)
 }
